@@ -127,6 +127,78 @@ func checkC15(w *World, r *Report) {
 			}
 		}
 	})
+	// a failed lookup leaves the engine as it was: on the path where no loader produced a template
+	// nothing is written to the Engine — not to the template cache and not to any other table (a
+	// remembered miss is never invalidated by a loader whose contents change, so a name that
+	// appears later stays "not found" on this engine while a fresh engine finds it)
+	writesEngine := map[*ssa.Function]string{}
+	engineWrite := func(in ssa.Instruction) string {
+		var addr ssa.Value
+		switch x := in.(type) {
+		case *ssa.Store:
+			addr = x.Addr
+		case *ssa.MapUpdate:
+			if u, ok := x.Map.(*ssa.UnOp); ok {
+				addr = u.X
+			}
+		case *ssa.Call:
+			if b, ok := x.Call.Value.(*ssa.Builtin); ok && b.Name() == "delete" && len(x.Call.Args) > 0 {
+				if u, ok := x.Call.Args[0].(*ssa.UnOp); ok {
+					addr = u.X
+				}
+			}
+		}
+		if addr == nil {
+			return ""
+		}
+		owner, path, root, ok := w.locOf(addr)
+		if !ok || owner != "Engine" || isFreshRoot(root) || strings.HasPrefix(path, "mu") {
+			return ""
+		}
+		return "Engine." + path
+	}
+	for changed := true; changed; {
+		changed = false
+		for _, g := range w.pkgFuncs() {
+			if writesEngine[g] != "" {
+				continue
+			}
+			instrsOf(g, func(in ssa.Instruction) {
+				if writesEngine[g] != "" {
+					return
+				}
+				if loc := engineWrite(in); loc != "" {
+					writesEngine[g] = loc + " (" + w.posOf(in.Pos()) + ")"
+					changed = true
+					return
+				}
+				if c, ok := in.(ssa.CallInstruction); ok {
+					if h := c.Common().StaticCallee(); h != nil && writesEngine[h] != "" {
+						writesEngine[g] = writesEngine[h] + " via " + h.Name()
+						changed = true
+					}
+				}
+			})
+		}
+	}
+	instrsOf(nilFn, func(in ssa.Instruction) {
+		if !(nilRegion == in.Block() || nilRegion.Dominates(in.Block())) {
+			return
+		}
+		what := engineWrite(in)
+		if what == "" {
+			if c, ok := in.(ssa.CallInstruction); ok {
+				if h := c.Common().StaticCallee(); h != nil && writesEngine[h] != "" {
+					what = writesEngine[h] + " through " + h.Name()
+				}
+			}
+		}
+		if what == "" || strings.HasPrefix(what, "Engine.templates") {
+			return // the template cache has its own obligation above
+		}
+		n1++
+		r.bad("R15.1", nilName, "engine untouched when nothing was loaded", w.posOf(in.Pos()), "on the path where no loader produced a template the engine records something ("+what+"): a later call is answered from that record although a loader may meanwhile have the name — what a render returns then depends on what was asked before")
+	})
 	// cache stores in the other parts: only under a successful load (the error of the loading
 	// part tested nil, or the template tested non-nil)
 	for _, part := range partList {
